@@ -34,7 +34,7 @@ def text_corpus(thorough=False):
     for t in list(TL.c05_templates())[:: 1 if thorough else 2]:
         for pos in range(len(t)):
             out.append(t[:pos] + t[pos + 1:])
-            for ch in ' (){}%:~3V_' if thorough else ' ({%:':
+            for ch in ' (){}%:~3V_\t\n' if thorough else ' ({%:\t':
                 out.append(t[:pos] + ch + t[pos + 1:]); out.append(t[:pos] + ch + t[pos:])
     seen = set(); r = []
     for s in out:
